@@ -10,6 +10,15 @@ E3 = 'TLC model checking of a TLA+ model generated from the documented tables, w
 
 # pid -> (engine, technique, level text, note, design_ref)
 CHECKS = {
+    'C09': ('E1+E2', E1 + '; ' + E2 + ' (shared scratch histories)',
+            'Cross product of pupil shapes/supports, FFT grids of both parities N in {n..n+5} reached through the wavelength '
+            '(including wavelengths that differ from the reported one), oversample 1..3, isotropic and per-axis sampling, every '
+            'accepted output shape on a stride and six scratch modes (exact advertised size, larger, dirty, NaN margin). Each '
+            'leaf is compared with the reference Fraunhofer sum at the reported wavelength and with propagate_dft at that '
+            'wavelength; scratch results are compared with the scratch-free call; oversize shapes, undersize scratch and three '
+            'kinds of tilt metadata must be refused; every sequence of 2/3 propagations over one shared scratch buffer is replayed.',
+            'Trusted: numpy FFT; reference sum; per-axis sampling only where both axes report one wavelength.',
+            'DESIGN.md section 4 C09'),
     'C01': ('E1', E1,
             'Full cross product of input shapes 1..5/1..7 (both parities, non-square), output shapes unrelated to the input, '
             'scalar/per-axis/negative/full-period alpha, fractional shifts, integer offsets of either sign, both normalisation '
